@@ -554,6 +554,8 @@ class XPathContext:
         if isinstance(self.item, XPathNode):
             if self.document is not None or self.item is not self.root:
                 item = self.item
+                if isinstance(item, (AttributeNode, NamespaceNode)) and item.parent is not None:
+                    item = item.parent  # the nodes that precede the owner element
 
                 if (root := item.parent) is not None:
                     status = self.item, self.axis
